@@ -31,6 +31,8 @@ pub struct GatedMeta {
     pub log: Arc<Mutex<Vec<MetaLogEntry>>>,
     /// method name -> is it a scheduling point?
     pub filter: Arc<dyn Fn(&str) -> bool + Send + Sync>,
+    /// one-shot injected failures for sequential harnesses (no scheduler): the next call of `method` gets the decision
+    pub inject: Mutex<Vec<(String, Decision)>>,
 }
 
 impl GatedMeta {
@@ -41,6 +43,7 @@ impl GatedMeta {
             ctl: ctl.clone(),
             log: Arc::new(Mutex::new(Vec::new())),
             filter: Arc::new(|_| true),
+            inject: Mutex::new(Vec::new()),
         })
     }
     pub fn with_filter(
@@ -55,12 +58,29 @@ impl GatedMeta {
             ctl: ctl.clone(),
             log: Arc::new(Mutex::new(Vec::new())),
             filter: Arc::new(filter),
+            inject: Mutex::new(Vec::new()),
         })
     }
     pub fn log_snapshot(&self) -> Vec<MetaLogEntry> {
         self.log.lock().unwrap().clone()
     }
+    /// make the next call of `method` fail (before or after its effect)
+    pub fn inject_failure(&self, method: &str, d: Decision) {
+        self.inject.lock().unwrap().push((method.to_string(), d));
+    }
+    pub fn pending_injections(&self) -> usize {
+        self.inject.lock().unwrap().len()
+    }
+    pub fn clear_injections(&self) {
+        self.inject.lock().unwrap().clear();
+    }
     async fn gate(&self, method: &str, arg: &str) -> Decision {
+        {
+            let mut inj = self.inject.lock().unwrap();
+            if let Some(i) = inj.iter().position(|(m, _)| m == method) {
+                return inj.remove(i).1;
+            }
+        }
         if (self.filter)(method) {
             self.ctl.gate(&self.node, "META", &format!("{method}({arg})"), None).await
         } else {
